@@ -59,6 +59,15 @@ def withinOneChunk (bounds : List Nat) (a len : Nat) : Bool :=
     | some e => a + len ≤ e
     | none => false
 
+/-- the single-call API's body reads, seen as the flow's: `cread` = `bread`, `cstopb` = `stopb`, `cended` = the
+    readiness query of the body state -/
+def callLineAsFlow (t : TLine) : TLine :=
+  match t.kw with
+  | "cread" => { t with op := "bread" :: t.op.drop 1, st := if t.st == "callRecvBody" then "recvBody" else t.st }
+  | "cstopb" => { t with op := "stopb" :: t.op.drop 1 }
+  | "cended" => { t with op := ["canproceed"], st := if t.st == "callRecvBody" then "recvBody" else t.st }
+  | _ => t
+
 def oracleC07 (c : TCase) : Verdict :=
   match metaVal c "body-stream" with
   | none => .ok
@@ -71,7 +80,7 @@ def oracleC07 (c : TCase) : Verdict :=
       let payload := chunks.flatten
       let encLen := coding.length
       let bounds := (chunks.foldl (fun (acc : List Nat × Nat) ch => (acc.1 ++ [acc.2 + ch.length], acc.2 + ch.length)) ([], 0)).1
-      let st := c.lines.foldl (fun (s : C07St) t =>
+      let st := (c.lines.map callLineAsFlow).foldl (fun (s : C07St) t =>
         if s.fail.isSome then s else
         match t.kw with
         | "stopb" => { s with stop := t.op.getD 1 "0" == "1" }
